@@ -237,7 +237,7 @@ func finish(rc *RunCtx, rep *Report) int {
 		"wall_s":      realNow().Sub(rc.Start).Seconds(),
 		"violations":  newViolations,
 	}
-	if rc.Replay == "" {
+	if rc.Replay == "" && len(rc.ID) >= 3 && rc.ID[0] == 'C' && rc.ID[1] >= '0' && rc.ID[1] <= '9' {
 		b, _ := json.MarshalIndent(ev, "", " ")
 		_ = os.MkdirAll(filepath.Join(rc.Root, "evidence"), 0o755)
 		if err := os.WriteFile(filepath.Join(rc.Root, "evidence", rc.ID+".json"), b, 0o644); err != nil {
